@@ -7,8 +7,9 @@ class C07(Property):
     pid = "C07"
     quick_n = 3000
     thorough_n = 120000
-    partial = ["C07_many_order (collected values follow command-line order) is decided by the oracle for leaf and group "
-               "alternatives and by the differential run; the theorems are about the decision rule of one choice"]
+    partial = ["that collected values follow command-line order is a theorem for a repeated choice between two required flags "
+               "(C07_repeated_choice_in_line_order); for argument and group alternatives it is decided by the oracle and the "
+               "differential run"]
 
     def gen_def(self, rng):
         """A choice over 2..4 leaf alternatives (req_flag with distinct values / argument), wrapped bare/optional/many/some,
